@@ -53,13 +53,17 @@ class Ctx:
         self.X = pvars('X', (NX,))
         self.Z = pvars('Z', (NZ,))
         self.desc = []
+        self.rvars = []
+        self.dvars = []
 
     def dvar(self, shape):
         x = self.m.dvar(shape)
+        self.dvars.append(x)
         return x, self.X[x.first:x.first + x.size].reshape(x.shape)
 
     def rvar(self, shape):
         z = self.m.rvar(shape)
+        self.rvars.append(z)
         return z, self.Z[z.first:z.first + z.size].reshape(z.shape)
 
     def ldr(self, shape, zs, mask_kind):
@@ -103,12 +107,18 @@ def dense(linear, ncols=None):
     return a
 
 
+class Inconsistent(Exception):
+    pass
+
+
 def aff_value(aff, vec):
     lin = dense(aff.linear)
     k = lin.shape[1]
     const = np.asarray(aff.const)
+    if lin.shape[0] != const.size:
+        raise Inconsistent('linear part has %d rows but the constant part has shape %s' % (lin.shape[0], const.shape))
     val = (parr(lin) @ vec[:k]) if lin.size else np.array([Poly() for _ in range(lin.shape[0])], dtype=object)
-    val = val.reshape(const.shape) + parr(const)
+    val = parr(val.reshape(const.shape) + parr(const))
     return val
 
 
@@ -126,7 +136,7 @@ def impl_value(expr, ctx):
         a = aff_value(expr.affine, ctx.X)
         if R.shape[0] != a.size:
             return ('shape', 'raffine rows %d != size %d' % (R.shape[0], a.size)), None
-        v = (R @ ctx.Z[:nr]).reshape(a.shape) + a
+        v = parr((R @ ctx.Z[:nr]).reshape(a.shape) + a)
         return v, tuple(expr.shape)
     if isinstance(expr, Affine):
         vec = ctx.X if expr.model.mtype == 'R' else ctx.Z
@@ -582,8 +592,11 @@ def decide(item, ses, rnd):
         return 'lenient'
     st.programs += 1
     ref = parr(ref)
-    impl, shape = impl_value(real, ctx)
     label = _label(item)
+    try:
+        impl, shape = impl_value(real, ctx)
+    except Inconsistent as e:
+        return report(ses, item, label, 'internally inconsistent expression object: %s' % e, None)
     if isinstance(impl, tuple):
         return report(ses, item, label, 'internal shape inconsistency: %s' % impl[1], None)
     if tuple(shape) != tuple(ref.shape):
@@ -658,7 +671,12 @@ def replay(data, verbose=False):
     ctx, treal, tref = build(item, rnd)
     real = treal()
     ref = parr(tref())
-    impl, shape = impl_value(real, ctx)
+    try:
+        impl, shape = impl_value(real, ctx)
+    except Inconsistent as e:
+        if verbose:
+            print('inconsistent expression object:', e)
+        return True
     if isinstance(impl, tuple) or tuple(shape) != tuple(ref.shape):
         if verbose:
             print('shape: rsome %s numpy %s' % (shape, ref.shape))
